@@ -117,7 +117,7 @@ Proof.
     destruct (Nat.ltb 0 i && Nat.ltb 0 w).
     + destruct (emit o s (CWait n wi i)) as [sw' rw] eqn:Ew.
       destruct (cancelled sw') eqn:Hsw; [inv H; split; auto|].
-      apply (Body sw'); [eapply emit_ext; eauto|exact H].
+      apply (Body sw'); [eapply emit_ext; eauto; exact I|exact H].
     + apply (Body s); [apply ext_refl|exact H].
 Qed.
 
